@@ -339,6 +339,7 @@ structure ContSt where
   freed : Bool := false
   filling : Bool := false      -- (array) inside, or thrown out of, a loop that stores into it: slots are missing
   filled : Bool := false       -- (array) a loop that stores into it ran until its iterator was exhausted
+  nulled : Bool := false       -- (array) every slot was set to NULL before anything was stored
 deriving Repr, Inhabited
 
 def findCont (cs : List ContSt) (c : Nat) : Option ContSt :=
@@ -373,7 +374,7 @@ def endOkC (s : PathSt) (cs : List ContSt) : PathVerdict :=
   | v => v
 
 /-- `for each element of c: fn(mgr, element)` -/
-def derefAllStep (float : Bool) (s : PathSt) (cs : List ContSt) (c : Nat) (fn bound : String) :
+def derefAllStep (float : Bool) (guarded : Bool) (s : PathSt) (cs : List ContSt) (c : Nat) (fn bound : String) :
     Except PathVerdict (PathSt × List ContSt) :=
   if !isDerefFn fn then .error (.bad ("not a dereference function: " ++ fn) c) else
   match findCont cs c with
@@ -385,7 +386,9 @@ def derefAllStep (float : Bool) (s : PathSt) (cs : List ContSt) (c : Nat) (fn bo
     if k.released then .error (.bad "the references of the container were already given back" c) else
     if k.kind == .array && k.size != bound then
       .error (.bad "the loop that gives the references back does not run over the allocated size" c) else
-    if k.kind == .array && (k.filling || !k.filled) then
+    -- every slot is read: all of them must have been written -- by a completed fill, or (when the
+    -- loop skips the NULL slots) by the initialisation `c[i] = NULL` of the whole array
+    if k.kind == .array && (k.filling || !k.filled) && !(guarded && k.nulled) then
       .error (.bad "every slot of an array is dereferenced, but the loop that fills it was not completed (or there is none)" c) else
     -- the references of the container go away …
     let s1 := s.map fun n => { n with inCont := n.inCont - k.owned.count n.id }
@@ -556,9 +559,22 @@ def runPathS (loc : List String) (float : Bool) (returnsNode : Bool) :
         let k' := if loc.contains fn && k.kind != .param then { k with mayHold := true, released := false } else k
         runPathS loc float returnsNode ls s (setCont cs k') rest
     | .derefAll c fn bound =>
-      match derefAllStep float s cs c fn bound with
+      match derefAllStep float false s cs c fn bound with
       | .error v => .stop v
       | .ok (s', cs') => runPathS loc float returnsNode ls s' cs' rest
+    | .derefNonNull c fn bound =>
+      match derefAllStep float true s cs c fn bound with
+      | .error v => .stop v
+      | .ok (s', cs') => runPathS loc float returnsNode ls s' cs' rest
+    | .nullInit c bound =>
+      match findCont cs c with
+      | none => .stop (.bad "the slots of an untracked array are initialised" c)
+      | some k =>
+        if k.kind != .array || k.size != bound then
+          .stop (.bad "the loop that initialises the slots does not run over the allocated size" c) else
+        if !k.owned.isEmpty || !k.borrowed.isEmpty || k.mayHold || k.freed then
+          .stop (.bad "the slots of an array are overwritten with NULL after something was stored" c) else
+        runPathS loc float returnsNode ls s (setCont cs { k with nulled := true }) rest
     | .free c fn =>
       if !isFreeFn fn then .stop (.bad ("not a deallocation function: " ++ fn) c) else
       match findCont cs c with
@@ -889,7 +905,8 @@ def refApiOk (inc : Bool) (m : CMethod) : Bool :=
 
 def CEv.isContEv : CEv → Bool
   | .alloc .. | .cnew .. | .cparam .. | .store .. | .load .. | .passC .. | .derefAll .. | .free ..
-  | .refNonPos .. | .setField .. | .fillBegin .. | .fillEnd .. | .handleDrop .. => true
+  | .refNonPos .. | .setField .. | .fillBegin .. | .fillEnd .. | .handleDrop .. | .nullInit ..
+  | .derefNonNull .. => true
   | _ => false
 
 /-- the functions with a special role keep no reference in a container -/
